@@ -1088,6 +1088,7 @@ impl Exec {
             Step::Audit => {
                 self.audit("C04");
             }
+            Step::FailingOpen { kind, arg } => self.failing_open(*kind, *arg),
             Step::ArmFaults { faults } => {
                 self.disk.arm(faults.clone());
                 self.mode = Mode::Faulty;
@@ -1148,6 +1149,93 @@ impl Exec {
             let e = e.to_string();
             self.api_err("C11", "reopen", &e);
             self.dead_end = true;
+        }
+    }
+
+    /// C20: every way an open can fail must still close the backend exactly once and never touch
+    /// it afterwards; the file must be none the worse for it.
+    pub fn failing_open(&mut self, kind: u8, arg: u64) {
+        if self.db.is_none() {
+            return;
+        }
+        // a file that needs repair for kinds 3 and 5: power loss with everything written kept
+        let image = if kind == 3 || kind == 5 {
+            self.crash_now(&CrashChoice::AllKept)
+        } else {
+            self.close_clean();
+            self.disk.st().live.clone()
+        };
+        let mut img = image.clone();
+        match kind % 6 {
+            0 => {
+                if img.len() > 4 {
+                    img[(arg % 9) as usize] ^= 0x5a;
+                }
+            }
+            1 => {
+                let keep = (arg as usize) % img.len().max(1);
+                img.truncate(keep);
+            }
+            _ => {}
+        }
+        let d = SimDisk::new(img);
+        d.st().record = false;
+        if kind % 6 == 4 {
+            d.arm(vec![crate::disk::Fault { index: arg % 40, permanent: arg % 2 == 0, partial_permille: 0 }]);
+        }
+        self.stats.api_calls += 1;
+        let cache = self.cache;
+        let r = catch_unwind(AssertUnwindSafe(|| -> Result<(), String> {
+            let mut b = self.builder(cache);
+            match kind % 6 {
+                2 => {
+                    let other = if self.cfg.page_size == 4096 { 8192 } else { 4096 };
+                    b.verif_set_page_size(other);
+                    b.create_with_backend(d.clone()).map(drop).map_err(|e| e.to_string())
+                }
+                3 => {
+                    b.set_repair_callback(|s| s.abort());
+                    b.create_with_backend(d.clone()).map(drop).map_err(|e| e.to_string())
+                }
+                5 => {
+                    d.st().read_only = true;
+                    b.verif_open_read_only_with_backend(d.clone()).map(drop).map_err(|e| e.to_string())
+                }
+                _ => b.create_with_backend(d.clone()).map(drop).map_err(|e| e.to_string()),
+            }
+        }));
+        let opened_ok = matches!(r, Ok(Ok(())));
+        if r.is_err() {
+            self.viol("C20", "open-panic", format!("a failing open (kind {kind}) panicked: {}", crate::runner::last_panic()));
+        }
+        {
+            let s = d.st();
+            let contract: Vec<String> = s.contract.iter().filter(|c| !c.contains("beyond current length") || kind % 6 != 1).cloned().collect();
+            let cc = s.close_count;
+            drop(s);
+            for c in contract {
+                self.viol("C20", "contract", format!("during a failing open (kind {kind}): {c}"));
+            }
+            if cc != 1 {
+                self.viol("C20", "close-count", format!("an open of kind {kind} (succeeded: {opened_ok}) called close() {cc} times"));
+            }
+        }
+        // the original file must still open and hold the model's contents
+        match self.open_image(image, cache) {
+            Ok(()) => {
+                if kind == 3 || kind == 5 {
+                    if !self.resync_after_recovery("C01") {
+                        self.dead_end = true;
+                    }
+                } else {
+                    self.after_open_checks("C20", false);
+                }
+            }
+            Err(e) => {
+                let e = e.to_string();
+                self.api_err("C20", "reopen after a failing open", &e);
+                self.dead_end = true;
+            }
         }
     }
 
